@@ -1190,6 +1190,8 @@ class C15(Check):
 
     def setup(self):
         self.tmp = tempfile.mkdtemp(prefix="c15-", dir="/var/tmp")
+        self.skips = {}
+        self.no_request = 0
 
     def teardown(self):
         shutil.rmtree(getattr(self, "tmp", ""), ignore_errors=True)
@@ -1247,6 +1249,26 @@ class C15(Check):
             ("L", {"k": "hist", "base": _cons([], "open"), "ops": [["append", x], ["append", y], ["terminate", "closed"]]}),
             ("M", {"k": "hist", "base": _cons([x], "open"), "ops": [["append", y], ["terminate", _C("r")]]}),
             ("N", {"k": "hist", "base": _conj(x, _avm([("F", y)])), "ops": [["add", _C("c")], ["and", z], ["normalize"]]})])])]}
+        # shapes of earlier seeded changes, kept deterministic
+        yield {"kind": "items", "items": [_td("a", [_I("b"), _avm([("F", x)]), _I("c")]),
+                                          _td("a", [_I("b"), _avm([("F", x)]), _C("r"), _S("q"), _avm([("G", y)]), _I("c")]),
+                                          _td("a", [_avm([("F", x)]), _I("c")], kind="addendum")]}
+        beg = lambda inst: {"k": "begin", "inst": inst, "status": cps("rule") if inst else None}
+        end_ = lambda inst: {"k": "end", "inst": inst}
+        yield {"kind": "items", "items": [beg(False), _td("a", [_I("b")]), beg(True), _td("c", [_I("d")]), beg(False),
+                                          _td("e", [_I("f")]), end_(False), _td("g", [_I("h")]), end_(True),
+                                          {"k": "include", "v": cps("x")}, _td("i", [_I("j")]), end_(False),
+                                          _td("k", [_I("l")]), beg(True), end_(True), _td("m", [_I("n")])]}
+        for empty in (_avm([]), _cons([], "closed"), _cons([], "open"), _diff([])):
+            yield {"kind": "items", "items": [_td("t", [_I("s"), _avm([
+                ("A", empty), ("B", _conj(empty)), ("C.D", empty), ("E.F.G", _conj(empty)), ("H", _conj(empty, x))])])]}
+        long_id = "very-long-type-name-that-forces-line-breaks"
+        for nn in (3, 4, 5, 8):
+            for e in ("open", _C("r"), "closed"):
+                yield {"kind": "items", "items": [_td("t", [_I("s"), _avm([("L", _cons([x] * nn, e))])])]}
+        for e in ("open", _C("r")):
+            yield {"kind": "items", "items": [_td("t", [_I("s"), _avm([("L", _cons([_I(long_id), _I(long_id)], e)),
+                                                                   ("M", _diff([_I(long_id)] * 2))])])]}
         # dotted lists whose end is "empty" in Python's sense
         for end in (_S(""), _cons([], "closed"), _diff([]), _cons([], "open"), _avm([]), {"k": "re", "d": None, "s": []}):
             for nn in (1, 2, 4):
@@ -1471,9 +1493,14 @@ class C15(Check):
             except EXC:
                 return {"set": {"err": "unmodelled"}}    # a list object was mutated by the assignment
             try:
-                out["get"] = d_leaf(avm[".".join(uncps(c) for c in case["get"])])
+                got = avm[".".join(uncps(c) for c in case["get"])]
             except EXC as e:
                 out["get"] = {"err": exc_name(e)}
+            else:
+                try:
+                    out["get"] = d_leaf(got)
+                except (AttributeError,) + EXC:
+                    out["get"] = {"err": "unmodelled"}   # internal list structure (FIRST/REST, None tails) read out
             return out
         raise ValueError(k)
 
@@ -1498,6 +1525,7 @@ class C15(Check):
             return {"op": "items", "items": case["items"]}
         if k == "long":
             if case["target"] > self.MODEL_LONG_MAX:
+                self.no_request += 1
                 return None
             return {"op": "items", "items": self.long_items(case)}
         if k == "toks":
@@ -1511,12 +1539,38 @@ class C15(Check):
         return None
 
     def model_compare(self, case, expected, answer):
-        txt = json.dumps(answer)
-        if '"unmodelled"' in txt or '"unmodelled"' in json.dumps(expected):
-            return None
-        if isinstance(answer, dict):
+        """Only the key whose value is `unmodelled` (on either side) is left out; every other key of the
+        case is still compared.  What was left out is counted and written into the evidence."""
+        sk = self.skips
+        if isinstance(answer, dict) and isinstance(expected, dict):
             answer = {k: v for k, v in answer.items() if k not in ("flags", "dangling")}
+            dropped = [k for k in sorted(set(answer) | set(expected))
+                       if '"unmodelled"' in json.dumps(answer.get(k)) or '"unmodelled"' in json.dumps(expected.get(k))]
+            if "construct" in dropped:
+                dropped = sorted(set(answer) | set(expected))   # the object itself is outside the model
+            if "set" in dropped and case.get("kind") == "path" and "get" not in dropped:
+                dropped.append("get")      # the state after an unmodelled assignment is unknown to the model
+            if dropped:
+                kind = case.get("kind", "?")
+                for k in dropped:
+                    key = "unmodelled-key:%s.%s" % (kind, k)
+                    sk[key] = sk.get(key, 0) + 1
+                answer = {k: v for k, v in answer.items() if k not in dropped}
+                expected = {k: v for k, v in expected.items() if k not in dropped}
+                if not answer and not expected:
+                    sk["cases-with-nothing-compared:" + kind] = sk.get("cases-with-nothing-compared:" + kind, 0) + 1
+                else:
+                    sk["cases-partly-compared:" + kind] = sk.get("cases-partly-compared:" + kind, 0) + 1
+        elif '"unmodelled"' in json.dumps(answer) or '"unmodelled"' in json.dumps(expected):
+            sk["cases-with-nothing-compared:" + case.get("kind", "?")] = \
+                sk.get("cases-with-nothing-compared:" + case.get("kind", "?"), 0) + 1
+            return None
         return super().model_compare(case, expected, answer)
+
+    def extra_evidence(self):
+        out = dict(self.skips)
+        out["cases-without-model-request:long(oracle only, > %d tokens)" % self.MODEL_LONG_MAX] = self.no_request
+        return {"model_comparison_gaps": out}
 
     # ---- direct oracle
     def oracle(self, case, res):
